@@ -55,6 +55,13 @@ impl KindId {
     }
     pub fn from_name(s: &str) -> Option<KindId> {
         use KindId::*;
+        // sub-runs of the reader-backed kinds are labelled more precisely: a replay re-runs the whole kind (all its readers)
+        if s.starts_with("IoInput(reader: ") {
+            return Some(IoFaulty);
+        }
+        if s.starts_with("IoInput(reader handed over") {
+            return Some(Io);
+        }
         [Str, StrMb, Slice, Stream, BoxedStream, Mapped, MappedGapped, U8, Io, IoFaulty, WithContext, WithContextMb, MapSpan, Array3, Bytes].into_iter().find(|k| k.name() == s)
     }
 }
